@@ -278,6 +278,9 @@ func runJob(scratch string, id int, job worker.Job, pi *propInfo, perRunTimeout 
 			if fp == "" {
 				return nil, fmt.Errorf("worker %d died without a Go panic (exit: %v):\n%s\n...\n%s", id, werr, firstLines(tail, 40), lastLines(tail, 15))
 			}
+			if strings.Contains(tail, "engine C: wall-clock watchdog") {
+				return nil, fmt.Errorf("worker %d: %s (the scheduler of engine C made no progress for 90 s of wall clock: harness trouble, not a verdict)\n%s", id, line, firstLines(tail, 60))
+			}
 			if !strings.Contains(tail, "orda-io/orda/") {
 				return nil, fmt.Errorf("worker %d: harness panic: %s\n%s", id, line, lastLines(tail, 40))
 			}
